@@ -348,7 +348,10 @@ def derived_series_rule(ctx, run):
             o.attrs["__buf_variance"] = W.tensor("stock.variance", "buffer")
             o.attrs["__buf_volatility"] = W.tensor("stock.volatility", "buffer")
             try:
-                res = interp.explore(fi, [], {}, self_obj=o)
+                # read through attribute access (a cached_property stores its first value in the instance dict on access)
+                from ..source import FuncInfo as _FI
+                drv = _FI("synthetic.read_series", cls.rsplit(".", 1)[0], ast.parse(f"def read_series(s):\n    return s.{prop_}\n").body[0])
+                res = interp.explore(drv, [o], {})
             except Unsupported as ex:
                 raise AnalysisError(f"{short}.{prop_}: {ex}")
             st = stores(res)
